@@ -38,7 +38,8 @@ class Job:
                  unwind=None, strcap=32, timeout=None, tier='quick', cname=None, may_throw=None, srcrel=None,
                  extra_cflags=(), cbmc_flags=(), no_checks=False, stubs=(), self_const=None, arity=None,
                  inline_select=None, object_bits=None, lemma=False, defines=(), variant_of=None, kf=None,
-                 description='', cases=None, case=None, replay_ghost=(), replay_domain=None, variants=None, unwindset=None, assume=None, contract_name=None, sat=None, exclude_clauses=(), harness=None, enforce=True, lean=None):
+                 description='', cases=None, case=None, replay_ghost=(), replay_domain=None, variants=None, unwindset=None, assume=None, contract_name=None, sat=None, exclude_clauses=(), harness=None, enforce=True, lean=None, rewrites=None):
+        self.rewrites = rewrites   # [(regex, replacement)] applied to the C++ text first (rule R16: stream / container accesses become stub calls); each must apply
         self.lean = lean   # path (relative to /verif) of a Lean 4 file of pure integer bridging lemmas (DESIGN 3.7)
         self.enforce = enforce   # False: the extracted body is used as is inside a relational lemma harness (DFCC allows one enforced call only)
         self.harness = harness   # name of a /*@ harness-alt <name> */ section: a relational lemma harness around the function under contract
@@ -277,7 +278,7 @@ def build_tu(proj, job):
         ex = T.extract_function(proj, fi, functable, real, job.srcrel, job.select, report, contract=c2)
     else:
         ex = T.extract_function(proj, fi, functable, real, job.srcrel, job.select, report, contract=contract,
-                                exclude_clauses=getattr(job, 'exclude_clauses', ()))
+                                exclude_clauses=getattr(job, 'exclude_clauses', ()), rewrites=getattr(job, 'rewrites', None))
     parts.append(ex.text)
     metas.insert(0, dict(function=fi.qualname, role='under contract', file=ex.srcrel, lines=list(ex.lines), sha256=ex.sha,
                          loop_contracts=ex.loops_spliced))
